@@ -340,7 +340,8 @@ class Check:
         fpath = os.path.join(info['dir'], 'feed_%s.txt' % key); open(fpath, 'w').write(' '.join(map(str, feed)))
         env = dict(os.environ, ASAN_OPTIONS='detect_leaks=0:halt_on_error=0', UBSAN_OPTIONS='print_stacktrace=1')
         rc, out, err, dt = run([r, h.name, 'replay', fpath], timeout=120, env=env)
-        confirmed = ('ASSERT-FAILED' in out) or (getattr(h, 'replay_on', 'real') == 'gen' and 'CHK-FAILED' in out) or bool(re.search(r'runtime error|AddressSanitizer|terminate called', err)) or (isinstance(rc, int) and rc < 0)
+        confirmed = ('ASSERT-FAILED' in out) or (getattr(h, 'replay_on', 'real') == 'gen' and 'CHK-FAILED' in out) or bool(re.search(r'runtime error|AddressSanitizer|terminate called', err)) or (isinstance(rc, int) and rc < 0 and rc != -4)
+        if rc == -4 and not confirmed: return None, 'replay reached a symbol that is not linked into the real build (undefined-symbol trap): not a confirmation'
         detail = (out[-600:] + '\n' + '\n'.join(l for l in err.split('\n') if re.search(r'runtime error|Sanitizer|terminate|SUMMARY', l))[:1200])
         return (path if confirmed else False), detail
 
